@@ -12,6 +12,17 @@ UNIT_SETS = [["%"], ["L/h", "L/min"], ["s", "min", "h"], ["bar"], ["m**2", "L/m2
 OPTION_POOL = ["Open", "Closed", "A", "B", "VA01", "VA02", "A+", "B|C", "V(1)", "x.y", "a b", "[1]", "on*", "Up?", "C^2"]
 BASE_UNITS = ["L", "h", "min", "s", "mL", "CV", "DV", "g", "kg"]
 FAR = ["Xyzzy", "Qwertyuiop", "Unobtainium", "Frobnicate"]
+# a uod author's own regular expressions (with_command_regex_arguments takes any string): not anchored at the start / at
+# the end / at neither end / anchored at both; with arguments the expression matches as a whole
+RAW_REGEXES = [
+    (r"(?P<number>[0-9]+[.]?[0-9]*) ?(?P<number_unit>Hz|kHz)\s*$", ["50 Hz", "2.5kHz", "7 Hz "]),
+    (r"^\s*(?P<position>Open|Closed)", ["Open", " Closed", "Open"]),
+    (r"(?P<number>[0-9]+) ?(?P<number_unit>%|rpm)", ["50 %", "1200rpm", "7 %"]),
+    (r"^(?P<value>[A-Z][0-9]{2})$", ["A01", "V17", "B99"]),
+    (r"(?P<value>on|off)$", ["on", "off", "on"]),
+]
+RAW_PREFIXES = ["+", "ca. ", "x", "-", "= ", "  ", "to "]
+RAW_SUFFIXES = [" approx", "x", " !", "s", ".0", " ", " (max)"]
 
 
 def gen_spec(rng, allow_custom: bool = True) -> dict:
@@ -27,9 +38,12 @@ def gen_spec(rng, allow_custom: bool = True) -> dict:
     cmds = []
     for name in rng.sample(CMD_NAMES, rng.randrange(2, 7)):
         r = rng.random()
-        if r < 0.35:
+        if r < 0.24:
             cmds.append({"name": name, "kind": "number", "units": rng.choice(UNIT_SETS),
                          "non_negative": rng.random() < 0.5, "int_only": rng.random() < 0.25})
+        elif r < 0.35:
+            rx, samples = rng.choice(RAW_REGEXES)
+            cmds.append({"name": name, "kind": "rawregex", "regex": rx, "samples": samples})
         elif r < 0.42:
             cmds.append({"name": name, "kind": "number_optional", "units": rng.choice(UNIT_SETS[:4]),
                          "non_negative": rng.random() < 0.5})
@@ -50,6 +64,43 @@ def gen_spec(rng, allow_custom: bool = True) -> dict:
             cmds.append({"name": name, "kind": "custom"})
     _ = U
     return {"tags": tags, "cmds": cmds, "base": rng.choice(["none", "none", "volume", "cv"])}
+
+
+def earlier_version(rng, spec: dict) -> dict:
+    """An earlier version of the same uod: same tag and command NAMES (so process values, command list and plot
+    configuration look the same), other units / argument patterns."""
+    import copy
+    old = copy.deepcopy(spec)
+    changed = False
+    for c in old["cmds"]:
+        if rng.random() < 0.7:
+            k = c["kind"]
+            if k in ("number", "number_optional"):
+                c["units"] = rng.choice([u for u in UNIT_SETS[:7] if u != c.get("units")])
+                c["non_negative"] = not c.get("non_negative")
+                changed = True
+            elif k == "categorical":
+                c["exclusive"], c["additive"] = ["Old", "Older"], None
+                changed = True
+            elif k == "rawregex":
+                rx, samples = rng.choice([x for x in RAW_REGEXES if x[0] != c["regex"]])
+                c["regex"], c["samples"] = rx, samples
+                changed = True
+            elif k == "text":
+                c["allow_empty"] = not c.get("allow_empty")
+                changed = True
+            elif k == "noargs":
+                c["kind"] = "default"      # used to take any argument
+                changed = True
+    for t in old["tags"]:
+        if t[1] is not None and rng.random() < 0.5:
+            t[1] = rng.choice([u for u in TAG_UNITS if u is not None and u != t[1]])
+            t[2] = 1.0
+            changed = True
+    if not changed:
+        t = old["tags"][0]
+        t[1], t[2] = ("kg" if t[1] != "kg" else "g"), 1.0
+    return old
 
 
 def number_arg(rng, c: dict, valid: bool) -> str:
@@ -99,8 +150,33 @@ def categorical_arg(rng, c: dict, valid: bool) -> str:
     return rng.choice(pool) + "x"
 
 
+def rawregex_arg(rng, c: dict, valid: bool) -> str:
+    """the matching part, mostly with something in front of / behind it (whether that is acceptable depends on where
+    the author anchored the expression — the analysis and the engine have to agree on it)"""
+    core = rng.choice(c["samples"])
+    if not valid:
+        return rng.choice(["", "nope", "?", core[:-1] if len(core) > 1 else "x"])
+    r = rng.random()
+    if r < 0.3:
+        return core
+    if r < 0.6:
+        return rng.choice(RAW_PREFIXES) + core
+    if r < 0.85:
+        return core + rng.choice(RAW_SUFFIXES)
+    return rng.choice(RAW_PREFIXES) + core + rng.choice(RAW_SUFFIXES)
+
+
+def raw_probe_args(c: dict) -> list[str]:
+    """fixed argument strings around the samples of a rawregex command, for the validate/parse probe"""
+    core = c["samples"][0]
+    return [core] + [p + core for p in RAW_PREFIXES[:4]] + [core + x for x in RAW_SUFFIXES[:4]] + ["+" + core + " !", ""]
+
+
 def cmd_line(rng, c: dict, valid: bool) -> str:
     k = c["kind"]
+    if k == "rawregex":
+        # arguments are stripped by the parser; a method line cannot carry leading blanks in the argument
+        return f"{c['name']}: {rawregex_arg(rng, c, valid)}".rstrip()
     if k in ("number", "number_optional"):
         if k == "number_optional" and valid and rng.random() < 0.3:
             return rng.choice([c["name"], c["name"] + ":  "])
